@@ -393,6 +393,29 @@ def run_c08(tier, seed):
                                'spec': 'same class from a file, a string or bytes', 'expected': expect,
                                'impl': {'bytes': got_b, 'file': got_f}})
     oc.count('encodings', enc_n)
+    # ... and as an S3 object: bytes are bytes wherever they come from - other encodings, a BOM, and bytes that are NOT
+    # valid in the encoding they claim (a rejected document is rejected from every source)
+    import codecs
+    from . import io_family
+    body = TJ.to_text(E('mos', E('mosID', text='caf\u00e9'), E('roReadyToAir', E('roID', text='R\u00d6'))))
+    byte_docs = [('utf-16 declared', ('<?xml version="1.0" encoding="UTF-16"?>' + body).encode('utf-16')),
+                 ('utf-16-le with BOM, undeclared', codecs.BOM_UTF16_LE + body.encode('utf-16-le')),
+                 ('utf-8 with BOM', codecs.BOM_UTF8 + body.encode('utf-8')),
+                 ('iso-8859-1 declared', ('<?xml version="1.0" encoding="ISO-8859-1"?>' + body).encode('iso-8859-1')),
+                 ('iso-8859-1 bytes claiming utf-8', ('<?xml version="1.0" encoding="UTF-8"?>' + body).encode('iso-8859-1')),
+                 ('stray 0xE9 in undeclared text', body.encode('utf-8').replace('caf\u00e9'.encode('utf-8'), b'caf\xe9')),
+                 ('truncated utf-8 sequence', body.encode('utf-8').replace('R\u00d6'.encode('utf-8'), b'R\xc3')),
+                 ('ascii only', TJ.to_text(E('mos', E('roStoryDelete', E('roID', text='r')))).encode('ascii'))]
+    for lbl, data in byte_docs:
+        res = io_family.untyped(io_family.from_all_sources(None, data))
+        outs = {k_: (v.get('cls') or v.get('err')) for k_, v in res.items()}
+        oc.evaluations += 1
+        oc.in_domain += 1
+        oc.count('bytes-from-every-source')
+        if len(set(outs.values())) != 1 or any(str(v).startswith('crash:') for v in outs.values()):
+            oc.failing.append({'kind': 'classify-bytes', 'encoding': lbl, 'data_hex': data.hex(), 'label': f'bytes from file / bytes / S3: {lbl}', 'all_sources': True,
+                               'spec': 'the same bytes give the same class, or are rejected with the same library exception, from a file, as bytes and as an S3 object',
+                               'expected': outs.get('bytes'), 'impl': outs})
     # textual forms: malformed text raises MosInvalidXML exactly when the XML parser rejects it (oracle: expat
     # itself), a well-formed textual variant (declaration, comments, blanks, CDATA ...) is classified like its
     # tree - and both are the same from a string, bytes and a file
@@ -433,7 +456,13 @@ def run_c08(tier, seed):
 def replay(pid, fl):
     from . import lean
     import json
-    if fl['kind'] == 'classify-bytes':
+    if fl['kind'] == 'classify-bytes' and fl.get('all_sources'):
+        from . import io_family
+        res = io_family.untyped(io_family.from_all_sources(None, bytes.fromhex(fl['data_hex'])))
+        outs = {k_: (v.get('cls') or v.get('err')) for k_, v in res.items()}
+        print(json.dumps({'impl': outs}))
+        bad = len(set(outs.values())) != 1 or any(str(v).startswith('crash:') for v in outs.values())
+    elif fl['kind'] == 'classify-bytes':
         data = bytes.fromhex(fl['data_hex'])
         got = {'bytes': classify_impl(data, 'string', 'ignore'), 'file': classify_impl(data, 'file', 'ignore')}
         print(json.dumps({'impl': got, 'expected': fl['expected']}))
